@@ -33,7 +33,7 @@ MANIFEST = {
     "technique": "symbolic execution of Standardiser on z3 Int/Real proxies; SMT decides every path and obligation",
     "text": "Bounded symbolic model checking of the real Standardiser code: for each of the 324 type "
             "configurations of (demand, supply, minimum, maximum, backlog, surplus) x granularity in "
-            "{1,2,3,(7, symbolic)} every feasible path of __init__/setter/getter is enumerated by z3 and "
+            "{1,2,3,(7, symbolic)} (and, for the all-float configurations, the fractional granularities 0.5 / 0.25, 0.5, 1.5) every feasible path of __init__/setter/getter is enumerated by z3 and "
             "the limit / window / floor / read-back obligations are proved for ALL numeric values on the "
             "path (unsat of the negation); histories of 2-3 operations and the increment law likewise. "
             "Bounded in structure (history length, granularity set), unbounded in the numeric values. Enumerated next to it (concrete, reported as such): nan rejection by type and 32 states with non-finite supply.",
@@ -45,7 +45,7 @@ STUBS = ["int / float / math.floor / math.ceil (as seen from the modules under t
 ASSUMPTIONS = [
     "constructor contract: minimum <= maximum, granularity > 0, surplus > 0, backlog > 0 "
     "(rejection of everything else is an obligation of its own)",
-    "pool model: supply >= 0 finite, demand finite; minimum != +inf, maximum != -inf",
+    "pool model: supply >= 0 finite (one_write_infinite_supply: +inf with a finite backlog), demand finite; minimum != +inf, maximum != -inf",
     "floats are exact reals (model R) or multiples of 1/4 (model G4); no IEEE rounding",
     "granularity is an int (documented type) or one of the listed fractional constants; granularity == 1 is the documented 'no rounding' "
     "default, so for g == 1 the forwarded value is the limited, unrounded value",
@@ -77,7 +77,7 @@ def _le(a, b):
 
 
 def _mk(ctx, tv, ts, tmin, tmax, tb, tsur, g, cls=Standardiser):
-    supply = ctx.num("supply", ts)
+    supply = _limit(ctx, "supply", ts)  # 'inf': a pool reporting unbounded supply
     ctx.assume(supply >= 0)
     minimum = _limit(ctx, "minimum", tmin, -1)
     maximum = _limit(ctx, "maximum", tmax, +1)
@@ -93,6 +93,12 @@ def _mk(ctx, tv, ts, tmin, tmax, tb, tsur, g, cls=Standardiser):
     s = cls(pool, minimum=minimum, maximum=maximum, granularity=g, backlog=backlog,
             surplus=surplus)
     return pool, s, (supply, minimum, maximum, backlog, surplus, g)
+
+
+def _near(r, t, g):
+    if isinstance(r, float) and isinstance(t, float) and r == t:  # both on the same infinite limit: distance 0, not inf - inf
+        return True
+    return And(r - t < g, t - r < g)
 
 
 def _check_write(ctx, pool, s, lim, value, tag=""):
@@ -123,7 +129,7 @@ def _check_write(ctx, pool, s, lim, value, tag=""):
     ctx.require(And(minimum <= r, r <= maximum), tag + "readback within [minimum, maximum]")
     ctx.require(Implies(r < lo, r == maximum), tag + "readback below window only if forced")
     ctx.require(Implies(r > hi, r == minimum), tag + "readback above window only if forced")
-    ctx.require(And(r - pool.demand < g, pool.demand - r < g), tag + "readback less than one granule from target")
+    ctx.require(_near(r, pool.demand, g), tag + "readback less than one granule from target")
     vin = And(lo <= value, value <= hi, minimum <= value, value <= maximum)
     ctx.require(r == value, tag + "readback is the written value when no limit interferes",
                 antecedent=vin)
@@ -305,6 +311,16 @@ def tasks(tier, seed):
         for g in ((0.5,) if tier == "quick" else (0.5, 0.25, 1.5)):
             out.append(Task(MOD, "one_write", dict(tv=tv, ts=ts, tmin=tmin, tmax=tmax, tb=tb, tsur=tsur, g=g),
                             model="R", witness_every=wit * 2, name="one_write_fractional_granularity"))
+    # a pool reporting unbounded supply ("every supply"), with a finite backlog: the window is [inf, inf]
+    for tv in ("int", "float"):
+        for tmin, tmax in itertools.product(("int", "float", "inf"), repeat=2):
+            for tb, tsur in itertools.product(("int", "float"), ("int", "float", "inf")):
+                if tv == "int" and "float" in (tmin, tmax, tb, tsur) and tier == "quick":
+                    continue
+                for g in (1, 2):
+                    out.append(Task(MOD, "one_write", dict(tv=tv, ts="inf", tmin=tmin, tmax=tmax, tb=tb, tsur=tsur, g=g),
+                                    model=_model_for(tv, tmin, tmax, tb, tsur), witness_every=wit,
+                                    name="one_write_infinite_supply"))
     # aliases are the same class: one all-int and one all-float configuration each
     for cls in ("Limiter", "Coarser"):
         for cfg in (HIST_CONFIGS[0], HIST_CONFIGS[2]):
